@@ -61,6 +61,9 @@ let handle (x : sexp) : Stdlib.String.t =
                     (zint indent) (zint w) (zint rw) None (z_of_int 1000) false with
             | None -> "FUEL"
             | Some s -> "R " ^ str_out s ^ " | W " ^ ws ^ " | V " ^ string_of_int (List.length st.g_visited)))
+  | L [A "dcshow"; A kind; r; a; b; c; d] ->
+      let f = if kind = "dc" then dc_display else attrs_display in
+      if f (boolv r) (boolv a) (boolv b) (boolv c) (boolv d) then "1" else "0"
   | _ -> "ERR bad request"
 
 let () =
